@@ -37,6 +37,10 @@ var hazardLambdas = []string{
 	`hour("time") >= 0`, `unixNano("time") / "i" != 0`, `"i" > "f"`, `"s" + 'x' == 'abcx'`, `!"b" OR "i" / "j" == 2`, `isPresent("i") AND "i" / "i" == 1`,
 	`10s / "i" > 0s`, `duration("i", 1s) / "j" >= 0s`, `1s / 2.0 * "f" > 0s`, `1h / duration("i", 1m) > 0`,
 	`humanBytes("i") != ''`, `strToUpper("s") == 'ABC'`, `ceil("f") / float("i") > 0.0`, `max("f", 1.0) / min("f", 1.0) > 1.0`, `-"i" / "j" < 0`, `"i" * "i" / "i" == "i"`,
+	// string functions at the boundaries of multi-byte values (indexes that are valid byte offsets but lie beyond the number of characters)
+	`"j" == 1 OR strLength(strSubstring("s", 1, strLength("s") - 1)) >= 0`, `"j" == 1 OR strSubstring("s", 0, 6) != 'x'`, `"j" == 1 OR strSubstring("s", 2, 4) != 'x'`,
+	`"j" == 1 OR strIndex("s", 'é') >= -1`, `"j" == 1 OR strLastIndex("s", '語') >= -1`, `"j" == 1 OR strTrimPrefix("s", 'é') != 'x'`, `"j" == 1 OR strTrim(strToTitle("s"), 'é') != 'x'`,
+	`"j" == 1 OR strHasSuffix("s", strSubstring("s", strLength("s") / 2, strLength("s") - 1))`,
 }
 
 // node templates: %s = lambda. Each forwards the sentinel.
@@ -85,11 +89,15 @@ func hostileValue(t *rapid.T, label string) (kit.FV, bool) {
 	case 0:
 		return kit.FV{}, false // missing
 	case 1, 2, 3:
+		if rapid.IntRange(0, 2).Draw(t, label+"small") == 0 {
+			// small values: indexes into the string fields, divisors, counts
+			return kit.I(int64(rapid.IntRange(-2, 14).Draw(t, label+"si"))), true
+		}
 		return kit.I(rapid.SampledFrom([]int64{0, 0, -1, 1, 2, math.MinInt64, math.MaxInt64, 3, 1 << 53}).Draw(t, label+"i")), true
 	case 4, 5:
 		return kit.F(rapid.SampledFrom([]float64{0, math.Copysign(0, -1), math.NaN(), math.Inf(1), math.Inf(-1), -1.5, 1e308, 5e-324, 1.5}).Draw(t, label+"f")), true
 	case 6, 7:
-		return kit.S(rapid.SampledFrom([]string{"", "a", "é€", "abc", "1", "1.5", "TRUE", "10s", "\x00", strings.Repeat("ab", 300), "{{ . }}", "a\nb"}).Draw(t, label+"s")), true
+		return kit.S(rapid.SampledFrom([]string{"", "a", "é€", "abc", "1", "1.5", "TRUE", "10s", "\x00", strings.Repeat("ab", 300), "{{ . }}", "a\nb", "ééééé", "日本語", strings.Repeat("é", 40), strings.Repeat("語", 25), "aé\xffb"}).Draw(t, label+"s")), true
 	default:
 		return kit.B(rapid.Bool().Draw(t, label+"b")), true
 	}
